@@ -50,6 +50,13 @@ func scenarios() []scenario {
 	add("ident-same-name-2", nil, a, f("m1", `identity x { base a:base; }`), f("m2", `identity x { base a:base; }`))
 	add("ident-same-name-3", nil, a, f("m1", `identity x { base a:base; }`), f("m2", `identity x { base a:base; }`), f("m3", `identity x { base a:base; } identity y { base x; }`))
 	add("ident-multi-base", nil, a, f("m1", `identity x { base a:base; base a:other; } identity w { base x; }`), f("m2", `identity x { base a:other; } identity v { base x; base a:base; }`))
+	// ... and in modules that declare the same prefix (prefixes need not be unique across a set)
+	sp := func(n, body string) dump.File {
+		return dump.File{Name: n + ".yang", Text: `module ` + n + ` { namespace "urn:` + n + `"; prefix p; import a { prefix a; } ` + body + ` }`}
+	}
+	add("ident-same-name-same-prefix", nil, a, sp("m1", `identity x { base a:base; }`), sp("m2", `identity x { base a:base; }`))
+	add("ident-same-name-same-prefix-3", nil, a, sp("m1", `identity x { base a:base; } identity y { base x; }`), sp("m2", `identity x { base a:base; } identity y { base x; }`), sp("m3", `identity y { base a:base; } typedef t { type string; } leaf l { type t; }`))
+	add("same-prefix-augment-deviate", nil, a, sp("m1", `augment /a:c { leaf y { type string; } } deviation /a:l { deviate replace { default P1; } }`), sp("m2", `augment /a:c { leaf z { type string; } } deviation /a:l { deviate replace { default P2; } }`))
 	// (b) pairs of deviate statements of different kinds in one deviation
 	devs := []string{`deviate delete { default d; }`, `deviate add { default e; }`, `deviate replace { default f; }`, `deviate add { units v; }`, `deviate replace { type int8; }`, `deviate delete { units u; }`, `deviate add { mandatory false; }`, `deviate replace { config false; }`}
 	for i, d1 := range devs {
